@@ -49,7 +49,11 @@ def assumed_function_hash(repo_root, file, path):
     fp = os.path.join(repo_root, file)
     rf = rustscan.RustFile(fp, open(fp).read())
     it = rf.find(path)[-1]
-    return hashlib.sha256(' '.join(weave.tokens_of(rf.text[it.start:it.end])).encode()).hexdigest()
+    # the whole text counts, string contents included (the SQL of such a function is its substance); comments and white space do not
+    txt = rf.text[it.start:it.end]
+    import re as _re
+    txt = _re.sub(r'//[^\n]*', '', txt)
+    return hashlib.sha256(' '.join(txt.split()).encode()).hexdigest()
 
 
 def changed_assumed_functions(unit_name, repo_root):
